@@ -192,20 +192,19 @@ func runC08Round(dir string, g *rand.Rand, creators, nplugins, perCreator, faili
 		close(evStop)
 		return
 	}
+	stopEvents()
 	if e := createErr.Load(); e != nil {
 		res.Violate("C08/create-error", fmt.Sprintf("a creation failed: %v", e), what)
 	}
 	// once the last block is released, pending registrations complete
 	for _, cp := range plugins {
-		if st := rig.Await(cp.p.Synced, 5*time.Second, 30*time.Second); st == "hang" {
+		if st := rig.Await(cp.p.Synced, 5*time.Second, 60*time.Second); st == "hang" {
 			res.Violate("C08/registration-stuck", fmt.Sprintf("plugin %d was not synchronized although no sync block is held any more; goroutines:\n%s", cp.pos, nriStacks()), what)
-			close(evStop)
 			return
 		} else if st == "slow" {
 			res.SlowOne()
 		}
 	}
-	stopEvents()
 	// fence: everybody registered must receive it as a creation
 	fence := tag + "-fence"
 	deadline := time.Now().Add(30 * time.Second)
